@@ -24,6 +24,7 @@ fn spaces(tier: Tier) -> Vec<Space> {
             Space { alpha: "T3", depth: 2 },
             Space { alpha: "SAME", depth: 2 },
             Space { alpha: "TERN", depth: 2 },
+            Space { alpha: "CASE", depth: 2 },
             Space { alpha: "MICRO", depth: 3 },
         ],
         Tier::Thorough => vec![
@@ -44,6 +45,8 @@ fn spaces(tier: Tier) -> Vec<Space> {
             Space { alpha: "SAME", depth: 3 },
             Space { alpha: "TERN", depth: 2 },
             Space { alpha: "TERN", depth: 3 },
+            Space { alpha: "CASE", depth: 2 },
+            Space { alpha: "CASE", depth: 3 },
             Space { alpha: "SELFX", depth: 2 },
             Space { alpha: "SELFX", depth: 3 },
             Space { alpha: "CORE", depth: 3 },
@@ -146,6 +149,7 @@ mod imp {
             Sym::Sum(_, b) => ST { op: "sum", args: vec![SA::Child(c(0)), SA::Bind(vec![b.slot, b.elem.slot], c(1))] },
             Sym::K3(..) => ST { op: "k", args: vec![SA::Child(c(0)), SA::Child(c(1)), SA::Child(c(2))] },
             Sym::W(a, _) => ST { op: "w", args: vec![SA::Slot(*a), SA::Child(c(0))] },
+            Sym::Case(_, l, r) => ST { op: "case", args: vec![SA::Child(c(0)), SA::Bind(vec![l.slot], c(1)), SA::Bind(vec![r.slot], c(2))] },
         }
     }
 
